@@ -265,11 +265,13 @@ BROAD = ["Variable", "Sum", "Product", "Quotient", "FloorDiv", "Remainder", "Pow
 ARITH = ["Variable", "Sum", "Product", "Quotient", "FloorDiv", "Remainder", "Power", "Call",
          "Comparison", "If", "Min", "Max", "CommonSubexpression", "LogicalAnd", "LogicalNot"]
 
-FAMS_BROAD = ["ident", "subst", "collect", "walk", "dep", "count", "combine", "plainopt"]
+FAMS_BROAD = ["ident", "subst", "collect", "walk", "dep", "count", "combine", "plainopt",
+              "entry_subst"]
 FAMS_ARITH = ["eval", "csemix_eval", "flop", "ident", "combine", "dep", "count", "collect",
-              "csemix_dep", "csemix_diff"]
+              "csemix_dep", "csemix_diff", "entry_subst", "entry_eval"]
 REWRITABLE = {"ident", "combine", "collect", "walk", "subst", "count", "flop", "plainopt"}
-EXTRAS_FAMS = {"ident", "combine", "collect", "walk", "dep", "plainopt", "csemix_dep"}
+EXTRAS_FAMS = {"ident", "combine", "collect", "walk", "dep", "plainopt", "csemix_dep",
+               "entry_subst", "entry_eval"}
 
 
 def variant_for(fam, bits):
@@ -298,6 +300,8 @@ def _gen_extras(r, fam, variant):
     args, kwargs = [], []
     if fam not in EXTRAS_FAMS:
         return args, kwargs
+    if fam.startswith("entry"):
+        return [["i", r.randrange(4)]], []      # which of the alternative mappings to use
     pos_ok = variant in ("0", "K")
     kw_ok = variant in ("0", "A")
     if pos_ok and r.random() < 0.6:
@@ -417,6 +421,12 @@ def generate(seed, tier):
             ops.append(["def", name, retype(src)])
             pool_names.append(name)
 
+    wide_name = None
+    if mode == "strict" and fault_mode == "none" and r.random() < 0.04:
+        # more distinct keys in one tree than any plausible bound on a cache
+        wide_name = f"e{len(pool_names)}"
+        ops.append(["def", wide_name, ["wide", r.choice(["Sum", "Product"]),
+                                       r.randint(1050, 1500), ["r", r.choice(pool_names)]]])
     # instances (rewriting a class costs ~0.13 s, so only some runs use the optimizer)
     use_opt = mode == "strict" and r.random() < 0.4
     ninst = r.randint(2, 6)
@@ -444,6 +454,22 @@ def generate(seed, tier):
                 "include_cses": r.random() < 0.4}
         elif fam == "csemix_diff":
             cfg["var"] = r.choice(["x", "y"])
+        elif fam.startswith("entry"):
+            # module-level entry points called again and again with mappings that are == to one
+            # another but hold differently typed values
+            v = r.choice(["x", "y"])
+            val = r.choice([1, 4])
+            nested = ["n", "Sum", [["t", [["n", "Variable", [["s", "z"]]], ["i", val]]]]]
+            nested_f = ["n", "Sum", [["t", [["n", "Variable", [["s", "z"]]], ["f", repr(float(val))]]]]]
+            cfg["alts"] = [[[v, ["i", val]]], [[v, ["f", repr(float(val))]]],
+                           [[v, ["np", "int64", repr(val)]]] if fam == "entry_eval"
+                           else [[v, nested]],
+                           [[v, ["fr", val, 1]]] if fam == "entry_eval" else [[v, nested_f]]]
+            if fam == "entry_eval":
+                for a in cfg["alts"]:
+                    for w in ["x", "y", "z", "xa"]:
+                        if w != v:
+                            a.append([w, ["fr", 3, 2]])
         elif fam == "subst":
             m = []
             for v in r.sample(["x", "y", "z", "xa"], r.randint(1, 3)):
@@ -507,6 +533,11 @@ def generate(seed, tier):
             elif fault_mode == "async":
                 fault = {"kind": "async_interrupt", "nth": r.randint(1, 400)}
         ops.append(["call", ins, et, args, kwargs, fault])
+    if wide_name is not None:
+        ins = r.choice([i for i in insts if not i["family"].startswith(("entry", "csemix_diff"))]
+                       or insts)
+        a, kw = _gen_extras(r, ins["family"], variant_for(ins["family"], ins["opt"]))
+        ops.insert(r.randint(len(ops) // 2, len(ops)), ["call", ins, ["r", wide_name], a, kw, None])
     ops += later
     return {"config": {"mode": mode, "fault_mode": fault_mode, "profile": profile},
             "ops": ops}
@@ -656,8 +687,29 @@ def execute(scenario, open_sigs):
                     for n, co in (("f", (3, 5, 7, 11)), ("g", (2, 9, 4, 6)),
                                   ("h", (8, 1, 3, 5)))}
 
+    class EntryPoint:
+        """adapter: a public module-level entry point seen as a long-lived server"""
+        def __init__(self, fam, cached, alts):
+            self.fam, self.cached, self.alts = fam, cached, alts
+
+        def __call__(self, expr, k=0):
+            from pymbolic.mapper.evaluator import (CachedEvaluationMapper, EvaluationMapper,
+                                                   evaluate)
+            from pymbolic.mapper.substitutor import (CachedSubstitutionMapper,
+                                                     SubstitutionMapper, substitute)
+            m = dict(self.alts[k % len(self.alts)])
+            if self.fam == "entry_subst":
+                return substitute(expr, m, mapper_cls=CachedSubstitutionMapper
+                                  if self.cached else SubstitutionMapper)
+            m.update({"f": abs, "g": abs, "h": abs})
+            return evaluate(expr, m, mapper_cls=CachedEvaluationMapper
+                            if self.cached else EvaluationMapper)
+
     def construct(cls, ins, st, fresh):
         fam, c = ins["family"], ins["cfg"]
+        if fam.startswith("entry"):
+            alts = [[(k, B.build(v, fresh=True)) for k, v in alt] for alt in c.get("alts", [[]])]
+            return EntryPoint(fam, cls == "cached", alts or [[]])
         if fam in ("eval", "csemix_eval"):
             ctx = {k: B.build(v) for k, v in c.get("vars", {}).items()}
             sim = SimState()
@@ -695,6 +747,8 @@ def execute(scenario, open_sigs):
             return M.P_dep, M.P_dep
         if fam == "csemix_diff":
             return M.P_diff, M.P_diff
+        if fam.startswith("entry"):
+            return "cached", "plain"
         if fam == "plainopt":
             plain = M.P_ident
             memo = define(fam, bits) if bits else M.PO_ident_0
@@ -989,10 +1043,7 @@ def execute(scenario, open_sigs):
                      {"op": opi, "instance": ins, "expr": str(ec)[:600], "args": argkey,
                       "fault": fault, "detail": detail})
 
-            for s in sub:
-                if s not in st.seen_sub:
-                    st.seen_sub.append(s)
-            st.history.append((jkey(ec), argkey))
+            st.history.append((_sha(ec), argkey))
             if got[0] != "ok":
                 probe("exception_calls")
 
